@@ -222,15 +222,7 @@ theorem rt_s32 (x : BitVec 32) : toS32 (fromS32 x) = (true, x.toInt) := by
 
 theorem equal_iff (a b : BitVec 64) : equal a b = true ↔ den a = den b := by
   rw [den_eq_iff]
-  unfold equal
-  simp only [beq_iff_eq]
-  constructor
-  · intro h
-    have := congrArg BitVec.toNat h
-    rwa [Model.toU64_r_toNat, Model.toU64_r_toNat] at this
-  · intro h
-    apply BitVec.eq_of_toNat_eq
-    rw [Model.toU64_r_toNat, Model.toU64_r_toNat, h]
+  exact equal_iff_mod a b
 
 theorem den_negone : den 18446744069414584320#64 = -1 := by
   have h : den 18446744069414584320#64 + 1 = 0 := by
